@@ -37,12 +37,36 @@ def mol_atoms(case):
     """atom records (deduplicated by the caller) and one molecule record"""
     from chython import smiles
     from chython.periodictable import H
+    built = 0
     try:
-        m = smiles(case['smi'])
-        m.kekule()
+        if case.get('hyd'):
+            # a centre with k explicit hydrogen atoms (more than any valence state admits for the larger k), then implicify_hydrogens():
+            # it removes as many hydrogens as some valence state explains; what it stores must be what the rules give for what is left
+            from chython import MoleculeContainer
+            from chython.periodictable import Element
+            z, c, k, sub = case['hyd']
+            m = MoleculeContainer()
+            m.add_atom(Element.from_atomic_number(z)(charge=c), 1)
+            for j in range(k):
+                m.add_bond(1, m.add_atom('H'), 1)
+            for j in range(sub):
+                m.add_bond(1, m.add_atom('C'), 1)
+            m.implicify_hydrogens()
+            built = 1
+        else:
+            m = smiles(case['smi'])
+            m.kekule()
+            if case.get('implicify'):      # explicit hydrogens everywhere, two more on one atom, then back
+                rnd = random.Random(case['implicify'])
+                m.explicify_hydrogens()
+                heavy = [n for n, a in m._atoms.items() if a.atomic_number != 1]
+                x = rnd.choice(heavy)
+                for j in range(rnd.choice([1, 2])):
+                    m.add_bond(x, m.add_atom('H'), 1)
+                m.implicify_hydrogens()
+                built = 1
     except Exception as e:
         return {'skip': type(e).__name__}
-    built = 0
     if case.get('edit'):
         # a transaction mixing attribute changes with structural edits elsewhere, and edits outside transactions:
         # afterwards every stored count must be the one the rules give
@@ -145,7 +169,11 @@ def run(ck):
         ck.count('core-model-domain', sum(1 for r in recs if r['z'] in (5, 6, 7, 8, 9) and r['c'] in (-1, 0, 1)))
     corp = chy.corpus()
     sel = chy.pick(corp, 300 if ck.quick else 4200, ck.seed) + EXOTIC
-    mcases = ck.select('molecules', [{'key': s, 'smi': s} for s in sel] +
+    extra = []
+    extra += [{'key': f'hydride:{z}:{c}:{k}:{sub}', 'smi': f'hydride:{z}:{c}:{k}:{sub}', 'hyd': [z, c, k, sub]}
+                   for z in (5, 6, 7, 8, 9, 14, 15, 16, 17, 33, 34, 35, 53) for c in (-1, 0, 1) for k in range(0, 7) for sub in (0, 1, 2)]
+    extra += [{'key': f'implicified:{s}:{k}', 'smi': s, 'implicify': ck.seed * 991 + k + 1} for k, s in enumerate(chy.pick(corp, 100 if ck.quick else 1000, ck.seed, 6))]
+    mcases = ck.select('molecules', extra + [{'key': s, 'smi': s} for s in sel] +
                        [{'key': f'edited:{s}:{k}', 'smi': s, 'edit': ck.seed * 977 + k + 1} for k, s in enumerate(chy.pick(corp, 150 if ck.quick else 1500, ck.seed, 4))])
     if mcases:
         res = vlib.pmap('checks.c04', 'mol_atoms', mcases)
